@@ -195,9 +195,11 @@ def scanner_obligations(ctx, rule_prefix: str = "") -> bool:
         H, brks = cfg.loops[id(o)]
         for b in brks:
             bst = cfg.stmt[b]
-            conds = [t for t, pol, n in dominating_conditions(ctx, f, bst) if pol]
-            ok = any(t in (f"not {s.block}",) or "max_offset" in t for t in conds)
-            _emit(ctx, P, "R4", "LOOP", f, "outer exit under " + "; ".join(conds[-2:]), ok, f"outer loop exit under {conds}: must be an empty read or the limit test", bst)
+            dc = dominating_conditions(ctx, f, bst)
+            conds = [("" if pol else "not ") + t for t, pol, n in dc]
+            ok = any((t == s.block and not pol) or (s.ps[3] in t and pol) for t, pol, n in dc)
+            _emit(ctx, P, "R4", "LOOP", f, "outer exit " + ("on empty read" if any(t == s.block and not pol for t, pol, n in dc) else "on limit" if ok else "under " + "; ".join(conds[-2:])), ok,
+                  f"outer loop exit under {conds}: must be an empty read or the limit test", bst)
     # ---- R5: limit tests
     n5 = 0
     for st in statements(f.node):
